@@ -12,3 +12,147 @@ Theorem C19_page_accounting_sound : forall img, wf_pages_disjoint img = true ->
         forall pn, In pn (bbn_pages img) <-> (1 <= pn /\ pn < mf_bbn_bump (i_manifest img)))%N.
 Proof. exact Image.wf_pages_disjoint_sound. Qed.
 Print Assumptions C19_page_accounting_sound.
+
+(* ------------------------------------------------------------------------------------------ *)
+(* The allocator itself: mirror of beatree/allocator/{free_list.rs, mod.rs} (FreeList.v:          *)
+(* FreeList::{read, pop, discard, commit, preallocate, push_and_encode}, get_nth_pop,            *)
+(* SyncAllocator::allocate, SyncFinisher::finish; parametric in the number [cap] of page numbers *)
+(* per free-list page, 1022 in the code).  The img engine checks on the real files that every    *)
+(* transition between two consecutive images is the one the mirror computes (flsnap / flcheck).  *)
+From Nomt Require FreeList FreeList_proofs.
+From Coq Require Import List NArith Permutation.
+
+(* Image.free_walk reads back exactly the list the encoder lays out (same portions, same items,
+   same order), whatever follows the defined prefix of a portion page (the page buffers are not
+   zeroed by the code) *)
+Theorem C19_freelist_encode_decode : forall c rd d fuel,
+    FreeList_proofs.disk_ok d -> FreeList_proofs.serves rd d -> (length d <= fuel)%nat ->
+    free_walk fuel c rd (FreeList.disk_head d) nil = Ok d.
+Proof. exact FreeList_proofs.encode_decode_any_tail. Qed.
+Print Assumptions C19_freelist_encode_decode.
+
+(* a sync started on a list as FreeList::read / commit leave it never panics (no failing unwrap,
+   assert! or index in the mirrored code) and leaves such a list again: the hypothesis [clean_b]
+   of the theorems below holds before every sync of every history *)
+Theorem C19_sync_total : forall cap, (2 <= cap)%nat -> forall s bump ops,
+    FreeList.clean_b cap s = true ->
+    exists got s' bump' ws,
+      FreeList.sync_all cap s bump ops = Some (got, s', bump', ws) /\ FreeList.clean_b cap s' = true.
+Proof. exact FreeList_proofs.sync_total. Qed.
+Print Assumptions C19_sync_total.
+
+(* no page is lost, none is duplicated, none is both free and live: if live pages, free items and
+   portion pages are exactly [1, bump) before a sync, then after ANY sequence of allocations and
+   releases followed by finish they are exactly [1, bump'), with live' = live - released + allocated *)
+Theorem C19_freelist_conservation : forall cap, (1 <= cap)%nat ->
+    forall s bump ops live got s' bump' ws,
+    FreeList.clean_b cap s = true -> (1 <= bump)%N ->
+    FreeList.covers (live ++ FreeList.tracked (FreeList.fl_portions s)) bump ->
+    FreeList.sync_all cap s bump ops = Some (got, s', bump', ws) ->
+    FreeList.ops_ok live ops got ->
+    FreeList.covers (FreeList.live_after live ops got ++ FreeList.tracked (FreeList.fl_portions s')) bump' /\
+    Permutation (FreeList.live_after live ops got ++ FreeList.released_of ops) (live ++ got) /\
+    FreeList.fl_released s' = nil /\ FreeList.fl_pop s' = false.
+Proof. exact FreeList_proofs.freelist_conservation. Qed.
+Print Assumptions C19_freelist_conservation.
+
+(* every page handed out was a free item of the start state or lies in [bump, bump') *)
+Theorem C19_allocate_fresh_or_free : forall cap, (1 <= cap)%nat ->
+    forall s bump ops got s' bump' ws,
+    FreeList.clean_b cap s = true ->
+    FreeList.sync_all cap s bump ops = Some (got, s', bump', ws) ->
+    forall pn, In pn got -> In pn (FreeList.stack (FreeList.fl_portions s)) \/ (bump <= pn /\ pn < bump')%N.
+Proof. exact FreeList_proofs.allocate_fresh_or_free. Qed.
+Print Assumptions C19_allocate_fresh_or_free.
+
+(* the pages handed out in one sync are pairwise distinct and none of them was live *)
+Theorem C19_allocate_distinct : forall cap, (1 <= cap)%nat ->
+    forall s bump ops live got s' bump' ws,
+    FreeList.clean_b cap s = true ->
+    FreeList.covers (live ++ FreeList.tracked (FreeList.fl_portions s)) bump ->
+    FreeList.sync_all cap s bump ops = Some (got, s', bump', ws) ->
+    NoDup got /\ forall pn, In pn got -> ~ In pn live.
+Proof. exact FreeList_proofs.allocate_distinct. Qed.
+Print Assumptions C19_allocate_distinct.
+
+(* pages freed in a sync are not reused in it (clause of C17): a page released at some point of a
+   sync is not handed out by any later allocation of that sync, is not among the pages the commit
+   of the free list writes, and is a free item of the new list *)
+Theorem C19_no_reuse_within_sync : forall cap, (1 <= cap)%nat ->
+    forall s bump ops1 pn ops2 live got s' bump' ws,
+    FreeList.clean_b cap s = true -> (1 <= bump)%N ->
+    FreeList.covers (live ++ FreeList.tracked (FreeList.fl_portions s)) bump ->
+    FreeList.sync_all cap s bump (ops1 ++ FreeList.ORelease pn :: ops2) = Some (got, s', bump', ws) ->
+    FreeList.ops_ok live (ops1 ++ FreeList.ORelease pn :: ops2) got ->
+    ~ In pn (skipn (FreeList.n_allocs ops1) got) /\
+    (forall w, In w ws -> fst (fst w) <> pn) /\
+    In pn (FreeList.stack (FreeList.fl_portions s')).
+Proof. exact FreeList_proofs.no_reuse_within_sync. Qed.
+Print Assumptions C19_no_reuse_within_sync.
+
+(* the frontier moves by the number of allocations that found the list empty plus the number of
+   portion pages of the new list taken from the frontier; the latter are taken only when no item
+   of the old list is left in place (the new list then consists of pushed pages only) *)
+Theorem C19_frontier_accounting : forall cap, (1 <= cap)%nat ->
+    forall s bump ops live got s' bump' ws,
+    FreeList.clean_b cap s = true -> (1 <= bump)%N ->
+    FreeList.covers (live ++ FreeList.tracked (FreeList.fl_portions s)) bump ->
+    FreeList.sync_all cap s bump ops = Some (got, s', bump', ws) ->
+    FreeList.ops_ok live ops got ->
+    let bumps := (FreeList.n_allocs ops - length (FreeList.stack (FreeList.fl_portions s)))%nat in
+    let k := length (filter (fun h => (bump + N.of_nat bumps <=? h)%N) (FreeList.heads (FreeList.fl_portions s'))) in
+    bump' = (bump + N.of_nat bumps + N.of_nat k)%N /\
+    ((0 < k)%nat -> exists extra,
+        FreeList.stack (FreeList.fl_portions s') = rev (FreeList.released_of ops ++ extra)).
+Proof. exact FreeList_proofs.frontier_accounting. Qed.
+Print Assumptions C19_frontier_accounting.
+
+(* CleanFreeList::get_nth_pop (index arithmetic, both shapes) is the n-th pop *)
+Theorem C19_get_nth_pop_spec : forall cap, (1 <= cap)%nat -> forall s n,
+    FreeList.clean_b cap s = true -> (n < FreeList.fl_len s)%nat ->
+    FreeList.get_nth_pop cap s n = nth_error (FreeList.stack (FreeList.fl_portions s)) n.
+Proof. exact FreeList_proofs.get_nth_pop_spec. Qed.
+Print Assumptions C19_get_nth_pop_spec.
+
+(* copy on write of the free list itself (the free-list half of C17's "old image stays intact"):
+   every page the commit of the free list writes is a portion page of the NEW list and was, in the
+   old image, a free item or beyond the frontier - not live, not released, not handed out in this
+   sync - the only other write being an untouched portion of the old list re-encoded onto its own
+   page with its old link and items *)
+Theorem C19_sync_cow : forall cap, (2 <= cap)%nat ->
+    forall s bump ops live got s' bump' ws,
+    FreeList.clean_b cap s = true -> (1 <= bump)%N ->
+    FreeList.covers (live ++ FreeList.tracked (FreeList.fl_portions s)) bump ->
+    FreeList.sync_all cap s bump ops = Some (got, s', bump', ws) ->
+    FreeList.ops_ok live ops got ->
+    forall w, In w ws ->
+      let pn := fst (fst w) in
+      In pn (FreeList.heads (FreeList.fl_portions s')) /\
+      ~ In pn live /\ ~ In pn got /\ ~ In pn (FreeList.released_of ops) /\
+      (In pn (FreeList.stack (FreeList.fl_portions s)) \/ (bump <= pn /\ pn < bump')%N
+       \/ In w (FreeList.layout (FreeList.to_disk (FreeList.fl_portions s)))).
+Proof. exact FreeList_proofs.sync_cow. Qed.
+Print Assumptions C19_sync_cow.
+
+(* what is on disk after a sync is the list the code holds in memory: Image.free_walk (equally
+   FreeList::read at the next open) from the new head over the old file content with the pages
+   written by the commit replaced returns exactly the new list *)
+Theorem C19_sync_disk : forall cap, (2 <= cap)%nat -> (cap <= 1022)%nat ->
+    forall s bump ops live got s' bump' ws rd0 rd1 c fuel,
+    FreeList.clean_b cap s = true -> (1 <= bump)%N -> (bump' <= 2 ^ 32)%N ->
+    FreeList.covers (live ++ FreeList.tracked (FreeList.fl_portions s)) bump ->
+    FreeList.sync_all cap s bump ops = Some (got, s', bump', ws) ->
+    FreeList.ops_ok live ops got ->
+    FreeList_proofs.serves rd0 (FreeList.to_disk (FreeList.fl_portions s)) ->
+    (forall w, In w ws -> FreeList_proofs.served rd1 w) ->
+    (forall pn, (forall w, In w ws -> fst (fst w) <> pn) -> rd1 pn = rd0 pn) ->
+    (length (FreeList.fl_portions s') <= fuel)%nat ->
+    free_walk fuel c rd1 (FreeList.head_pn s') nil = Ok (FreeList.to_disk (FreeList.fl_portions s')).
+Proof. exact FreeList_proofs.sync_disk. Qed.
+Print Assumptions C19_sync_disk.
+
+(* the starting point: FreeList::read of a decoded list of the expected shape is clean *)
+Theorem C19_fl_read_clean : forall cap d,
+    FreeList.shape_b cap (FreeList.of_disk d) = true -> FreeList.clean_b cap (FreeList.fl_read cap d) = true.
+Proof. exact FreeList_proofs.fl_read_clean. Qed.
+Print Assumptions C19_fl_read_clean.
